@@ -244,6 +244,20 @@ namespace sim
     std::string composition_model(Rng &r, const std::string &family, const Keys &k, double lo, double hi)
     {
       KV kv;
+      if ((family == "subducting plate" || family == "oceanic plate") && r.chance(0.2))
+        {
+          // water content after Tian et al.: asks the world for the temperature at the point (a nested query)
+          static const char *lith[] = {"peridotite", "gabbro", "MORB", "sediment"};
+          kv.push_back({"model", str("tian water content")});
+          kv.push_back({"compositions", inums({static_cast<unsigned>(r.below(4))})});
+          kv.push_back({"lithology", str(lith[r.below(4)])});
+          kv.push_back({"initial water content", num(r.real(0.5, 6))});
+          kv.push_back({"cutoff pressure", num(r.real(5, 26))});
+          kv.push_back({k.mn, num(lo)});
+          kv.push_back({k.mx, num(lo + (hi - lo) * r.real(0.3, 1.0))});
+          kv.push_back({"operation", str(pick_op(r, true))});
+          return obj(kv);
+        }
       const bool smooth = (family == "subducting plate" || family == "fault") && r.chance(0.3);
       kv.push_back({"model", str(smooth ? "smooth" : "uniform")});
       const int n = static_cast<int>(r.range(1, 3));
@@ -389,16 +403,23 @@ namespace sim
     {
       KV kv;
       kv.push_back({"model", str("random")});
-      const int n = static_cast<int>(r.range(1, 2));
+      const int n = static_cast<int>(r.range(1, 4));
       std::vector<unsigned> comps;
       std::vector<double> lo, hi;
       for (int i = 0; i < n; ++i)
         {
           comps.push_back(static_cast<unsigned>(i + 2));
-          const double a = static_cast<double>(r.range(0, 64)) / 128.0;
+          // every entry repeats the first one: the documented behaviour is that min value[0] / max value[0]
+          // apply to all listed compositions, whatever the lengths of the two lists
+          const double a = i == 0 ? static_cast<double>(r.range(0, 64)) / 128.0 : lo[0];
           lo.push_back(a);
-          hi.push_back(a + static_cast<double>(r.range(1, 64)) / 128.0);
+          hi.push_back(i == 0 ? a + static_cast<double>(r.range(1, 64)) / 128.0 : hi[0]);
         }
+      // the two lists need not be as long as the list of compositions
+      if (r.chance(0.4))
+        lo.resize(static_cast<size_t>(r.range(1, n)));
+      if (r.chance(0.4))
+        hi.resize(static_cast<size_t>(r.range(1, n)));
       kv.push_back({"compositions", inums(comps)});
       kv.push_back({"min value", nums(lo)});
       kv.push_back({"max value", nums(hi)});
@@ -490,15 +511,19 @@ namespace sim
       return obj(kv);
     }
 
+    bool g_polar_gentle = false;
+
     std::string segment(Rng &r, bool fault, double &length, double &thick_max, std::array<double, 2> &angles, double prev_angle)
     {
       KV kv;
-      length = r.real(40e3, 400e3);
+      length = g_polar_gentle ? r.real(250e3, 600e3) : r.real(40e3, 400e3);
       const double t1 = r.real(20e3, 150e3), t2 = r.chance(0.5) ? t1 : r.real(20e3, 150e3);
       thick_max = std::max(t1, t2);
       // dips anywhere in (0,180): mostly ordinary slabs, sometimes steep or overturned ones
       auto dip = [&]() -> double
       {
+        if (g_polar_gentle)
+          return fault ? (r.chance(0.5) ? r.real(10, 35) : r.real(145, 170)) : r.real(5, 35);
         if (fault)
           return r.real(15, 165);
         const double s = r.real();
@@ -529,8 +554,12 @@ namespace sim
       kv.push_back({"model", str(family)});
       kv.push_back({"name", str(family + " " + std::to_string(idx))});
       const int n = static_cast<int>(r.range(2, 5));
+      // next to a pole: often a meridional trench with a long, gently dipping slab, which reaches across
+      // many degrees of longitude
+      const bool polar = f.spherical && std::fabs(f.cy) >= 79 && r.chance(0.6);
+      g_polar_gentle = polar;
       // a trench: points along a direction with sideways wiggle
-      const double dir = r.real(0, 2 * M_PI);
+      const double dir = polar ? (r.chance(0.5) ? M_PI / 2 : -M_PI / 2) + r.real(-0.15, 0.15) : r.real(0, 2 * M_PI);
       const double step = r.real(0.25, 0.6);
       double x = rx(f, r, -0.5, 0.5) - 0.5 * (n - 1) * step * f.ex * std::cos(dir);
       double y = ry(f, r, -0.5, 0.5) - 0.5 * (n - 1) * step * f.ey * std::sin(dir);
@@ -637,8 +666,10 @@ namespace sim
             f.cx = r.chance(0.5) ? r.real(160, 200) : r.real(-200, -160); // across the dateline
           if (allow_extreme && r.chance(0.2))
             f.cy = r.chance(0.5) ? r.real(60, 78) : r.real(-78, -60);     // high latitude
+          else if (allow_extreme && r.chance(0.12))
+            f.cy = r.chance(0.5) ? r.real(79, 86) : r.real(-86, -79);     // next to a pole
           f.ex = r.real(3, 15);
-          f.ey = std::min(r.real(3, 15), 88.0 - std::fabs(f.cy));
+          f.ey = std::max(0.5, std::min(r.real(3, 15), 88.0 - std::fabs(f.cy)));
           f.m_per_unit = f.radius * M_PI / 180.0;
         }
       else
@@ -657,7 +688,9 @@ namespace sim
       if (f.spherical)
         {
           static const char *dm[] = {"starting point", "begin segment", "begin at end segment"};
-          KV cs = {{"model", str("spherical")}, {"depth method", str(dm[r.below(3)])}};
+          // 'continuous' is in the schema's enum but not available: such a file has to be refused (it once built
+          // a world with an uninitialised depth method), so it is still generated now and then
+          KV cs = {{"model", str("spherical")}, {"depth method", str(r.chance(0.04) ? "continuous" : dm[r.below(3)])}};
           if (f.radius != 6371000.0)
             cs.push_back({"radius", num(f.radius)});
           kv.push_back({"coordinate system", obj(cs)});
